@@ -83,12 +83,15 @@ pub fn run(ctx: &Ctx, findings: &Findings) -> PropReport {
     let mut subs = vec![];
     if let Some(path) = &ctx.replay {
         let v: serde_json::Value = serde_json::from_str(&std::fs::read_to_string(path).expect("replay file")).expect("json");
-        if let Some(r) = replay_case::<Case>(ctx, findings, "history", &v, &check_case) {
-            subs.push(r);
+        for name in ["history", "enumerated"] {
+            if let Some(r) = replay_case::<Case>(ctx, findings, name, &v, &check_case) {
+                subs.push(r);
+            }
         }
     } else {
         let n = ctx.cases(30000, 600000);
         subs.push(drive(ctx, findings, "history", RULE, n, || case_strategy(ctx.tier.pick(14, 22)), &check_case));
+        subs.push(drive_enum(ctx, findings, "enumerated", crate::engines::brokersim::RULE_ENUM, crate::engines::brokersim::enumerated_cases(ctx.tier.pick(3, 5)), true, &check_case));
     }
     PropReport {
         level: "exploration",
